@@ -131,6 +131,7 @@ def c07(tier, seed):
     runs = [dict(cfg=c, traces=w, drain=True, notime=True, preds=C07_PREDS) for c in ("pdata", "pdata21", "pdatanat", "pdatatcp")]
     runs.append(dict(cfg="pdata", traces=n(tier, 100, 1500), preds=C07_PREDS))
     runs[0]["scheds"] = ["c07_reader_falls_behind"]
+    runs[1]["scheds"] = ["c07_early_writes_follow_the_valid_set", "c07_early_write_then_restart"]
     plan = {"runs": runs, "mc": [("pdata", ["DataOnlyOnValid", "SelListed"], None)], "assumptions": SESSION_ASSUME + [
         "payload sizes 5..8192 bytes; the application reader runs concurrently and is drained at every step"]}
     return session.run_property("C07", tier, seed, plan)
